@@ -48,8 +48,7 @@ import (
 // (flags: o inputOrderMatters, i ignoresInputOrder, p permuting, b bottleneck, t two-pass, m mergeable, g generates data) and, for X=1,
 //
 //	" | ok cmp=<seq|set> n=<rows> <row>;…" (set: the order of the rows is not determined, they are printed sorted) or
-//	" | skip=<class>" (input classes in which the unchanged code is known to deviate: c06pClass) or " | skip=not-judged" (a bin span
-//	that is a fraction: float formatting; stats without by over no rows) or " | err" / " | panic".
+//	" | skip=not-judged" (a bin span that is a fraction: float formatting; stats without by over no rows) or " | err" / " | panic".
 //
 // Executed chains (X=1) are well-formed (c06pWF; bad-op otherwise): the last key of every sort is row-unique (`id`, after stats
 // the by-field), so that ties never decide; where / eval / bin / stats arguments are all-int columns; head / tail / dedup only
@@ -574,17 +573,6 @@ func c06pBuild(cmds []c06pCmd, k int) c06pPlan {
 	_, aggs, _, err := pipesearch.ParseQuery(spl, c06Qid, "Splunk QL")
 	if err != nil || aggs == nil {
 		return c06pPlan{err: "parse"}
-	}
-	// NumericExpr.GetFields caches its answer in the expression object the parallel chains share, setting the "populated"
-	// flag before the value (a data race: a chain that looks in between evaluates its first batch over no fields — known
-	// finding plan-parallel/eval/shared-expression-race).  Populate the caches here so that the runs are deterministic.
-	for a := aggs; a != nil; a = a.Next {
-		if a.EvalExpr != nil && a.EvalExpr.ValueExpr != nil {
-			a.EvalExpr.ValueExpr.GetFields()
-		}
-		if a.WhereExpr != nil {
-			a.WhereExpr.GetFields()
-		}
 	}
 	qi := &query.QueryInformation{}
 	factory := func() []*processor.DataProcessor {
@@ -1112,176 +1100,6 @@ func (c c06pCmd) twoPass() bool {
 	return (c.kind == "fillnull" && len(c.base.fields) == 0) || (c.kind == "bin" && c.n == 0)
 }
 
-// Input classes in which the UNCHANGED code is known to deviate (known_findings.txt, sig plan-rewind/<class> and
-// plan-parallel/stats/empty-partial).  A two-pass command re-reads, after Rewind, the retained result of the nearest upstream
-// sort / stats, and
-//   - sort-mutated:  commands between the sort and the two-pass command have already rewritten that result in place;
-//   - sort-merger:   the sort is the one merged from n>1 chains; the merger consumes (Discards from) the very objects the sort
-//     processors retain, and a drained chain that is asked again answers with an empty "final" result.  The second pass is
-//     right only when every chain read ONE batch and the first merge round (until the first chain is drained) already
-//     delivered `limit` rows;
-//   - stats-merger:  the stats is the one merged from n>1 chains: the second pass merges the partial results a second time;
-//   - stats-noby-reextracted: the stats has no by clause and is not the command the chains are merged at: its result is
-//     extracted a second time and comes out empty;
-//
-// and, without any Rewind,
-//   - sort-merger-order-dropped: the sort merged from n>1 chains is followed (no head/tail/dedup between) by a command that
-//     ignores its input order (sort, stats): setMergeSettings hands the merger a comparator that is always true but keeps
-//     the limit, so the merger passes on the first `limit` rows it happens to see;
-//   - stats-empty-partial: stats without by merged from n>1 chains, sum/min/max requested, and a chain none of whose rows reached
-//     the stats: sum/min/max of the merged answer depend on the order in which the partial results arrive.
-//
-// n = number of chains of the plan; shares[i] = the batches dealt to chain i.
-func c06pClass(cmds []c06pCmd, n int, shares [][][]c06Row) string {
-	first := c06pMergeIdx(cmds)
-	for j, t := range cmds {
-		if !t.twoPass() {
-			continue
-		}
-		for i := j - 1; i >= 0; i-- {
-			b := cmds[i]
-			if b.kind == "tail" {
-				break
-			}
-			if b.kind == "stats" {
-				if n > 1 && i == first {
-					return "stats-merger"
-				}
-				if b.by == "" && i != first {
-					return "stats-noby-reextracted"
-				}
-				break
-			}
-			if b.kind == "sort" {
-				if i < j-1 {
-					return "sort-mutated"
-				}
-				if n > 1 && i == first && !c06pSecondPassSafe(cmds[:i+1], shares) {
-					return "sort-merger"
-				}
-				break
-			}
-		}
-	}
-	if n > 1 && first >= 0 && cmds[first].kind == "sort" {
-		for _, c := range cmds[first+1:] {
-			if c.kind == "head" || c.kind == "tail" || c.kind == "dedup" {
-				break
-			}
-			if c.kind == "sort" || c.kind == "stats" {
-				return "sort-merger-order-dropped"
-			}
-		}
-	}
-	if n > 1 && first >= 0 && cmds[first].kind == "stats" && cmds[first].by == "" {
-		mm := false
-		for _, a := range cmds[first].aggs {
-			mm = mm || a.fn != "count"
-		}
-		if mm {
-			for _, q := range c06pChainResults(cmds[:first], shares) {
-				if q != nil && len(q) == 0 {
-					return "stats-empty-partial"
-				}
-			}
-		}
-	}
-	return ""
-}
-
-// index of the command at which parallel chains are merged (CanParallelSearch on the unchanged code: the first bottleneck, if it
-// ignores its input order and no command before it depends on the order); -1: the plan has one chain
-func c06pMergeIdx(cmds []c06pCmd) int {
-	for i, c := range cmds {
-		switch {
-		case c.kind == "head" || c.kind == "tail" || c.kind == "dedup" || c.twoPass():
-			return -1
-		case c.kind == "sort" || c.kind == "stats":
-			return i
-		}
-	}
-	return -1
-}
-
-// the documented meaning of cmds on every chain's share; nil for a chain that is dealt no batch; (nil, false) if not modelled
-func c06pChainResults(cmds []c06pCmd, shares [][][]c06Row) [][]c06RefRow {
-	var all []c06Row
-	for _, sh := range shares {
-		for _, b := range sh {
-			all = append(all, b...)
-		}
-	}
-	keys := c06Keys(all)
-	var res [][]c06RefRow
-	for _, sh := range shares {
-		if len(sh) == 0 {
-			res = append(res, nil)
-			continue
-		}
-		ref := []c06RefRow{}
-		for _, b := range sh {
-			for _, r := range b {
-				rr := c06RefRow{}
-				for _, k := range keys {
-					rr[k] = c06Val{kind: 'z'}
-				}
-				for _, c := range r {
-					rr[c.k] = c.v
-				}
-				ref = append(ref, rr)
-			}
-		}
-		q, ok := c06pRefRun(cmds, ref)
-		if !ok || q == nil {
-			q = []c06RefRow{}
-		}
-		res = append(res, q)
-	}
-	return res
-}
-
-// every chain read at most one batch, and the first merge round of the sorted chain results (until the first of them is
-// drained) delivers `limit` rows (with one chain taking part there is nothing to merge)
-func c06pSecondPassSafe(upto []c06pCmd, shares [][][]c06Row) bool {
-	sc := upto[len(upto)-1]
-	for _, sh := range shares {
-		if len(sh) > 1 {
-			return false
-		}
-	}
-	var queues [][]c06RefRow
-	for _, q := range c06pChainResults(upto, shares) {
-		if q != nil {
-			queues = append(queues, q)
-		}
-	}
-	if len(queues) <= 1 {
-		return true
-	}
-	var union []c06RefRow
-	for _, q := range queues {
-		if len(q) == 0 {
-			return false
-		}
-		union = append(union, q...)
-	}
-	sort.SliceStable(union, func(i, j int) bool { return c06pLess(sc.keys, union[i], union[j]) })
-	round1 := len(union)
-	for _, q := range queues {
-		last := q[len(q)-1]
-		pos := 0
-		for i, u := range union {
-			if !c06pLess(sc.keys, last, u) { // u ≤ last
-				pos = i + 1
-			}
-		}
-		if pos < round1 {
-			round1 = pos
-		}
-	}
-	return round1 >= c06pLimit(sc)
-}
-
 func execPlan(line string) Result {
 	op, ok := c06pParseOp(line)
 	if !ok {
@@ -1301,14 +1119,10 @@ func execPlan(line string) Result {
 	}
 	n := len(plan.chains)
 	shares := c06pDeal(op.deal, op.rows, n)
-	class := c06pClass(op.cmds, n, shares)
 	res := Result{}
-	switch {
-	case !rok:
+	if !rok {
 		res.Out = plan.shape + " | skip=not-judged"
-	case class != "":
-		res.Out = plan.shape + " | skip=" + class
-	default:
+	} else {
 		res.Out = plan.shape + " | " + c06pCanon(got, op.cmp)
 	}
 	nb, maxShare := 0, 0
@@ -1349,10 +1163,8 @@ func execPlan(line string) Result {
 	if tp {
 		res.Tags = append(res.Tags, "has-two-pass")
 	}
-	if class != "" {
-		res.Tags = append(res.Tags, "class="+class)
-	} else if tp && n > 1 {
-		res.Tags = append(res.Tags, "two-pass-with-parallel-chains-in-spec-region")
+	if tp && n > 1 {
+		res.Tags = append(res.Tags, "two-pass-with-parallel-chains")
 	}
 	if !rok {
 		res.Tags = append(res.Tags, "skip=not-judged")
@@ -1372,7 +1184,6 @@ func execPlan(line string) Result {
 		}
 		return res
 	}
-	baseClass := c06pClass(op.cmds, 1, c06pDeal(nil, op.rows, 1))
 	if a, b := c06pCanon(got, op.cmp), c06pCanon(base, op.cmp); a != b {
 		sig := "plan-parallel/" + bott + "/chains"
 		if n == 1 {
@@ -1380,14 +1191,6 @@ func execPlan(line string) Result {
 		}
 		if got.status == "hang" || got.status == "hang-skip" {
 			sig = "plan-hang/" + bott
-		} else if class == "stats-empty-partial" {
-			sig = "plan-parallel/stats/empty-partial"
-		} else if class == "sort-merger-order-dropped" {
-			sig = "plan-parallel/sort/order-dropped-limit-kept"
-		} else if class != "" {
-			sig = "plan-rewind/" + class
-		} else if baseClass != "" {
-			sig = "plan-rewind/" + baseClass
 		}
 		res.Fails = append(res.Fails, PropFail{Sig: sig, Msg: fmt.Sprintf("GOMAXPROCS=%d, %d chain(s), dealt %v: [%s] %s  but GOMAXPROCS=1, one batch: [%s] %s", op.k, n, op.deal, a, got.msg, b, base.msg)})
 	}
@@ -1398,9 +1201,6 @@ func execPlan(line string) Result {
 			who = op.cmds[0].kind
 		}
 		sig := "plan-semantics/" + who + "/other"
-		if baseClass != "" {
-			sig = "plan-rewind/" + baseClass
-		}
 		res.Fails = append(res.Fails, PropFail{Sig: sig, Msg: fmt.Sprintf("GOMAXPROCS=1, one batch: [%s] %s  documented meaning: [%s]", a, base.msg, want)})
 	}
 	return res
